@@ -79,12 +79,14 @@ fn spec(ctx: &Ctx, shards: usize, with_ticks: bool) -> SeqSpec {
         alphabet.push(Op::Upsert { k, value: false, w: None, ttl_ms: Some(1500), remove_ttl: false });
         if k == 1 {
             alphabet.push(Op::Upsert { k, value: true, w: None, ttl_ms: Some(3000), remove_ttl: false });
+            // moves the expiry to another shard for 2 and for 4 shards (old 1 s -> new 4 s)
+            alphabet.push(Op::Upsert { k, value: false, w: None, ttl_ms: Some(4000), remove_ttl: false });
             alphabet.push(Op::Upsert { k, value: true, w: None, ttl_ms: None, remove_ttl: true });
         }
         alphabet.push(Op::Upsert { k, value: false, w: None, ttl_ms: None, remove_ttl: true });
         alphabet.push(Op::Delete { k });
     }
-    for ms in [500u64, 1000, 2000, 10_000_000_000] {
+    for ms in [500u64, 1000, 2000, 3000, 10_000_000_000] {
         alphabet.push(Op::Advance { ms });
     }
     if with_ticks {
@@ -97,7 +99,7 @@ fn spec(ctx: &Ctx, shards: usize, with_ticks: bool) -> SeqSpec {
         world: Default::default(),
         prefix: vec![],
         alphabet,
-        depth: if quick { 4 } else { 6 },
+        depth: if quick { 5 } else { 6 },
         // an upsert without a value needs an existing entry (documented precondition PutOrUpdateValueMissing)
         allow: Some(Arc::new(|_h, present, a| match a {
             Op::Upsert { k, value: false, .. } => present.contains(k),
@@ -106,6 +108,7 @@ fn spec(ctx: &Ctx, shards: usize, with_ticks: bool) -> SeqSpec {
         oracle: read_oracle(false),
         keys,
         canon_sketch: false,
+        ghost_key: Some(ghost_key(false)),
         max_states: if quick { 60_000 } else { 2_000_000 },
         time_cap_s: if quick { 25.0 } else { 900.0 },
     }
